@@ -6,7 +6,7 @@
 EXTENDS Integers, Sequences, FiniteSets, TLC, Json
 CONSTANTS His, Los, FLo, FHi
 VARIABLES mem, fill, kind, last       \* kind[h] \in {"none", "array", "bitmap"}
-Abs == INSTANCE U32Set
+Abs == INSTANCE U32Set WITH fill2 <- [h \in His |-> FALSE]      \* (the second filler block is a device of the random driver)
 R(n, args, r) == [n |-> n, a |-> args, r |-> r]
 F == FHi - FLo + 1
 Limit == 4096
